@@ -742,6 +742,127 @@ func c08Conservation(r *verdict.Run, e *emu, kind string, nconn, nops int, rng *
 		time.Sleep(time.Duration(nops) * 300 * time.Microsecond)
 		stop.Store(true)
 		wg.Wait()
+	case "bigviews":
+		// atomic views of LARGE values: a command that writes several parts of one value (or several values) must
+		// never be seen half-done by a reader, however long copying the value takes
+		const big = 1 << 20
+		fin.Do("SETRANGE", "bits", strconv.Itoa(big-1), "\x00")
+		fin.Do("SET", "fill", strings.Repeat("A", 256<<10))
+		var hargs = []string{"HSET", "bh"}
+		for i := 0; i < 300; i++ {
+			hargs = append(hargs, fmt.Sprintf("f%03d", i), "0")
+		}
+		fin.Do(hargs...)
+		var largs = []string{"RPUSH", "ring"}
+		for i := 0; i < 1500; i++ {
+			largs = append(largs, fmt.Sprintf("e%04d", i))
+		}
+		fin.Do(largs...)
+		stop := atomic.Bool{}
+		observations := int64(0)
+		writer := func(c int) {
+			defer wg.Done()
+			cn, err := e.dial()
+			if err != nil {
+				return
+			}
+			defer cn.Close()
+			cn.Timeout = 30 * time.Second
+			for i := 0; !stop.Load(); i++ {
+				x := []string{"0", "255"}[(i+c)%2]
+				switch c % 4 {
+				case 0:
+					cn.Do("BITFIELD", "bits", "SET", "u8", "#"+strconv.Itoa(big/4), x, "SET", "u8", "#"+strconv.Itoa(3*big/4), x)
+				case 1:
+					cn.Do("SETRANGE", "fill", "0", strings.Repeat([]string{"A", "B"}[i%2], 256<<10))
+				case 2:
+					a := []string{"HSET", "bh"}
+					for j := 0; j < 300; j++ {
+						a = append(a, fmt.Sprintf("f%03d", j), strconv.Itoa(i))
+					}
+					cn.Do(a...)
+				case 3:
+					if i%2 == 0 {
+						cn.Do("LMOVE", "ring", "ring", "LEFT", "RIGHT")
+					} else {
+						cn.Do("RPOPLPUSH", "ring", "ring")
+					}
+				}
+			}
+		}
+		reader := func(c int) {
+			defer wg.Done()
+			cn, err := e.dial()
+			if err != nil {
+				return
+			}
+			defer cn.Close()
+			cn.Timeout = 30 * time.Second
+			for i := 0; !stop.Load(); i++ {
+				atomic.AddInt64(&observations, 1)
+				switch (c + i) % 5 {
+				case 0:
+					v, err := cn.Do("BITCOUNT", "bits")
+					if err == nil && v.Int != 0 && v.Int != 16 {
+						bad("bigviews/bitfield-half-applied", fmt.Sprintf("BITCOUNT of a 1 MiB string = %d while writers set two distant bytes to 0x00 or 0xff with one BITFIELD command (must be 0 or 16)", v.Int), nil)
+						return
+					}
+				case 1:
+					v, err := cn.Do("BITFIELD_RO", "bits", "GET", "u8", "#"+strconv.Itoa(big/4), "GET", "u8", "#"+strconv.Itoa(3*big/4))
+					if err == nil && len(v.Elems) == 2 && v.Elems[0].Int != v.Elems[1].Int {
+						bad("bigviews/bitfield-half-applied", fmt.Sprintf("BITFIELD_RO read %s from two bytes that are only ever written together", v), nil)
+						return
+					}
+				case 2:
+					v, err := cn.Do("GET", "fill")
+					if err == nil {
+						b := v.Str
+						if len(b) != 256<<10 || strings.Count(string(b), string(b[:1])) != len(b) {
+							bad("bigviews/setrange-torn", fmt.Sprintf("GET of a 256 KiB value that writers overwrite completely with one SETRANGE returned a mixture (%d bytes, first %q, %d equal to it)", len(b), b[:1], strings.Count(string(b), string(b[:1]))), nil)
+							return
+						}
+					}
+				case 3:
+					v, err := cn.Do("HVALS", "bh")
+					if err == nil && len(v.Elems) > 0 {
+						for _, el := range v.Elems {
+							if el.Text() != v.Elems[0].Text() {
+								bad("bigviews/hset-half-applied", fmt.Sprintf("HVALS of a 300-field hash whose fields are only ever set together returned both %s and %s", v.Elems[0], el), nil)
+								return
+							}
+						}
+						if len(v.Elems) != 300 {
+							bad("bigviews/hset-half-applied", fmt.Sprintf("HVALS returned %d of 300 fields", len(v.Elems)), nil)
+							return
+						}
+					}
+				case 4:
+					v, err := cn.Do("LRANGE", "ring", "0", "-1")
+					if err == nil {
+						seen := map[string]bool{}
+						for _, el := range v.Elems {
+							seen[el.Text()] = true
+						}
+						if len(v.Elems) != 1500 || len(seen) != 1500 {
+							bad("bigviews/rotation-torn", fmt.Sprintf("LRANGE of a 1500-element list that is only ever rotated returned %d elements, %d distinct", len(v.Elems), len(seen)), nil)
+							return
+						}
+					}
+				}
+			}
+		}
+		for c := 0; c < 4; c++ {
+			wg.Add(1)
+			go writer(c)
+		}
+		for c := 0; c < nconn-4; c++ {
+			wg.Add(1)
+			go reader(c)
+		}
+		time.Sleep(time.Duration(nops) * 4 * time.Millisecond)
+		stop.Store(true)
+		wg.Wait()
+		r.Count("bigview_observations", atomic.LoadInt64(&observations))
 	}
 	r.Eval(nconn * nops)
 	r.Distinct("conservation/" + kind + "/" + strconv.Itoa(nconn))
@@ -751,7 +872,7 @@ func c08Run(r *verdict.Run, race bool, nhist, ncons int, tag string) {
 	st := &linStats{}
 	perChild := 25
 	nsh := (nhist + perChild - 1) / perChild
-	kinds := []string{"incr", "append", "list", "sets", "mset", "rename"}
+	kinds := []string{"incr", "append", "list", "sets", "mset", "rename", "bigviews"}
 	var raceMu sync.Mutex
 	raceSeen := map[string]string{}
 	parallel(nsh+ncons, 12, func(shard int) {
@@ -834,8 +955,8 @@ func c08Run(r *verdict.Run, race bool, nhist, ncons int, tag string) {
 
 func checkC08(r *verdict.Run) {
 	r.Rule = "(1) many small concurrent histories (3-6 connections x 5-10 operations on 1-3 disjoint key groups; single-key read-modify-write and multi-key commands; unique written values) recorded at the client boundary with one monotonic clock and checked for linearizability with porcupine against the reference model (partitioned by key group; a final single-client read of every key is part of the history); " +
-		"(2) conservation runs: N x M INCR/DECR/HINCRBY sums, APPEND tokens, unique list ids pushed/popped/moved (exactly once), SMOVE between two sets under SINTERCARD/SUNION observers, MSET tag vectors under MGET observers, MSETNX/DEL all-or-nothing, RENAME ping-pong under EXISTS observers; yields are injected before/after the data store lock. distinct = overlapping command pairs actually observed + conservation kinds"
-	c08Run(r, false, tierPick(r, 300, 10000), tierPick(r, 6, 60), "plain")
+		"(2) conservation runs: N x M INCR/DECR/HINCRBY sums, APPEND tokens, unique list ids pushed/popped/moved (exactly once), SMOVE between two sets under SINTERCARD/SUNION observers, MSET tag vectors under MGET observers, MSETNX/DEL all-or-nothing, RENAME ping-pong under EXISTS observers, and atomic views of large values (two distant bytes of a 1 MiB string written by one BITFIELD, a 256 KiB value overwritten by one SETRANGE, 300 hash fields set by one HSET, a 1500-element list that is only rotated) under BITCOUNT/BITFIELD_RO/GET/HVALS/LRANGE observers; yields are injected before/after the data store lock. distinct = overlapping command pairs actually observed + conservation kinds"
+	c08Run(r, false, tierPick(r, 300, 10000), tierPick(r, 7, 63), "plain")
 	if r.Tier == "thorough" {
 		c08Run(r, true, 300, 12, "race-build")
 	}
